@@ -20,7 +20,10 @@
 //!   k   messages the response stream yields before it ends with Err(status) (sserr / umix)
 //!   tx  0 = in-process hand-over, 1 = tonic::transport::Channel ↔ tonic::transport::Server over
 //!       real hyper/h2 on an in-memory duplex pipe (user-agent of tonic itself and hyper's
-//!       `date` are taken out of the views: they are the transport's own)
+//!       `date` are taken out of the views: they are the transport's own), 2 = in-process
+//!       hand-over THROUGH tonic-web (GrpcWebClientLayer → GrpcWebLayer → the gRPC service): the
+//!       grpc-web translation of messages, headers and the trailers block must be invisible too
+//!       (the `accept-encoding` the server layer adds is taken out of the request views)
 //!   modes ok | err | sserr | umix as for `e2e`; umix with k ≥ 1: a unary client that gets a
 //!   message and then error trailers (code ≠ 0: the status as it is) or OK trailers carrying
 //!   metadata (code 0: the handler ended the stream with Err(Status::ok + metadata); the client
@@ -261,11 +264,26 @@ async fn serve(hreq: http::Request<Body>, c: Arc<Cfg>, seen: Arc<Mutex<Seen>>) -
 const TX_OWN_RESPONSE: [&str; 1] = ["date"];
 
 fn srv_view(m: &MetadataMap, c: &Cfg) -> String {
-    if c.tx == 1 {
+    if c.tx == 2 {
+        typed_view(&MetadataMap::from_headers(strip_web_own(&m.clone().into_headers())))
+    } else if c.tx == 1 {
         typed_view(&MetadataMap::from_headers(strip_own_user_agent(&m.clone().into_headers())))
     } else {
         typed_view(m)
     }
+}
+
+/// what tonic-web's server layer adds to the request it hands to the gRPC service (tx = 2)
+fn strip_web_own(h: &http::HeaderMap) -> http::HeaderMap {
+    let mut h = h.clone();
+    let own = {
+        let vs: Vec<&http::HeaderValue> = h.get_all("accept-encoding").iter().collect();
+        vs.len() == 1 && vs[0].as_bytes() == b"identity,deflate,gzip"
+    };
+    if own {
+        h.remove("accept-encoding");
+    }
+    h
 }
 
 /// the transport's own `user-agent` (tonic/<version>, set by Channel's UserAgent layer)
@@ -288,7 +306,13 @@ fn strip_own_user_agent(h: &http::HeaderMap) -> http::HeaderMap {
 /// around `serve`
 async fn server_entry(hreq: http::Request<Body>, c: Arc<Cfg>, seen: Arc<Mutex<Seen>>) -> http::Response<Body> {
     {
-        let h = if c.tx == 1 { strip_own_user_agent(hreq.headers()) } else { hreq.headers().clone() };
+        let h = if c.tx == 1 {
+            strip_own_user_agent(hreq.headers())
+        } else if c.tx == 2 {
+            strip_web_own(hreq.headers())
+        } else {
+            hreq.headers().clone()
+        };
         seen.lock().unwrap().reqwire = Some(render_map(&h));
     }
     if c.is == 0 {
@@ -540,6 +564,24 @@ fn run_e2x(c: Cfg) -> String {
             }
             out
         })
+    } else if c.tx == 2 {
+        // in-process hand-over THROUGH tonic-web: GrpcWebClientLayer on the caller's side,
+        // GrpcWebLayer in front of the gRPC service; every message, header and trailer crosses
+        // the grpc-web translation in both directions
+        let (c2, seen2) = (c.clone(), seen.clone());
+        let inner = tower::service_fn(move |hreq: http::Request<Body>| {
+            let (c, seen) = (c2.clone(), seen2.clone());
+            async move { Ok::<_, std::convert::Infallible>(server_entry(hreq, c, seen).await) }
+        });
+        let web_srv = tonic_web::GrpcWebLayer::new().layer(inner);
+        let web_cli = tonic_web::GrpcWebClientLayer::new().layer(web_srv);
+        let svc = tower::service_fn(move |hreq: http::Request<Body>| {
+            let mut w = web_cli.clone();
+            async move { w.call(hreq).await.map(|r| r.map(Body::new)) }
+        });
+        let rt = tokio::runtime::Builder::new_current_thread().build().unwrap();
+        let c3 = c.clone();
+        rt.block_on(async move { with_client_interceptor(svc, &c3).await })
     } else {
         let (c2, seen2) = (c.clone(), seen.clone());
         let svc = tower::service_fn(move |hreq: http::Request<Body>| {
@@ -800,7 +842,7 @@ pub fn generate(thorough: bool, rng: &mut Rng, out: &mut Vec<String>) {
     ];
     let other: Typed = vec![(false, b"x-b".to_vec(), b"r".to_vec()), (true, b"k-bin".to_vec(), vec![7])];
     let line = |k: [u64; 9], mode: &str, code: u64| format!("e2x {} {} {} {} {} {} {} {}", knobs_tok(k), mode, code, hex(b"denied"), hex(&[8, 1]), typed_tok(&md), typed_tok(&other), typed_tok(&md));
-    let ranges: [u64; 9] = [2, 2, 6, 5, 6, 4, 4, 3, 2];
+    let ranges: [u64; 9] = [2, 2, 6, 5, 6, 4, 4, 3, 3];
     for mode in ["ok", "err", "sserr", "umix"] {
         for (i, n) in ranges.iter().enumerate() {
             for v in 0..*n {
@@ -820,17 +862,20 @@ pub fn generate(thorough: bool, rng: &mut Rng, out: &mut Vec<String>) {
     for k in 0..3u64 {
         out.push(line([0, 0, 0, 0, 0, 0, 0, k, 0], "sserr", 0));
         out.push(line([1, 1, 0, 0, 0, 0, 0, k, 1], "sserr", 0));
+        out.push(line([0, 1, 0, 0, 0, 0, 0, k, 2], "sserr", 0));
     }
     for k in 1..3u64 {
         out.push(line([0, 0, 0, 0, 0, 0, 0, k, 0], "umix", 0));
         out.push(line([1, 1, 0, 0, 0, 0, 0, k, 1], "umix", 0));
+        out.push(line([1, 0, 0, 0, 0, 0, 0, k, 2], "umix", 0));
     }
     // ---- random: all knobs at once
     let n = if thorough { 40000 } else { 1200 };
     for i in 0..n {
         let mode = *rng.pick(&["ok", "ok", "err", "sserr", "umix"]);
         // the real transport costs a connection per case: a share of the cases only
-        let tx = if thorough { rng.chance(1, 8) } else { i % 6 == 0 } as u64;
+        // (tx = 2, through tonic-web's two layers, is in-process and cheap: a fifth of the cases)
+        let tx = if i % 5 == 1 { 2 } else { (if thorough { rng.chance(1, 8) } else { i % 6 == 0 }) as u64 };
         let mut k = [0u64; 9];
         for (j, r) in ranges.iter().enumerate() {
             k[j] = rng.below(*r);
